@@ -6,6 +6,7 @@ import (
 	"encoding/json"
 	"errors"
 	"fmt"
+	"os"
 	"sync"
 	"testing"
 	"time"
@@ -41,6 +42,10 @@ type Scenario struct {
 	PeriodMs   int    `json:"periodMs"`
 	MaxRetries int    `json:"maxRetries"`
 	Events     []Ev   `json:"events"`
+	// HoldHandler (connections): receive queue of size 0 and a handler that does not return before the
+	// end of the scenario: every later request stays in the receiver, which has taken note of it all
+	// the same ("a message was received")
+	HoldHandler bool `json:"holdHandler,omitempty"`
 }
 
 type fakeConn struct{ ctx context.Context }
@@ -128,6 +133,17 @@ func Exec(t *testing.T, sc Scenario, r *evid.Run) *evid.Failure {
 			var pingsSeen []refcodec.Msg
 			var closeConn func()
 			var failNext func(on bool)
+			holdGate := make(chan struct{})
+			queueSize := 16
+			if sc.HoldHandler {
+				queueSize = 0
+			}
+			hold := func(r *pool.Message) {
+				// only a request is held (empty acknowledgements and resets reach the handler too)
+				if sc.HoldHandler && r.Code() >= 1 && r.Code() <= 31 {
+					<-holdGate
+				}
+			}
 			var done <-chan struct{}
 			nextMID := 50000
 			scan := func() {
@@ -151,7 +167,13 @@ func Exec(t *testing.T, sc Scenario, r *evid.Run) *evid.Failure {
 					options.WithMessagePool(pool.New(8, 2048)), options.WithPeriodicRunner(tk.Runner()),
 					options.WithBlockwise(false, 6, time.Second), mon,
 					options.WithTransmission(1, time.Hour, 10),
-					options.WithHandlerFunc(udpClient.HandlerFunc(func(*responsewriter.ResponseWriter[*udpClient.Conn], *pool.Message) {})),
+					options.WithErrors(func(e error) {
+						if os.Getenv("VERIF_DEBUG") != "" {
+							fmt.Println("  conn error:", e)
+						}
+					}),
+					options.WithHandlerFunc(udpClient.HandlerFunc(func(_ *responsewriter.ResponseWriter[*udpClient.Conn], r *pool.Message) { hold(r) })),
+					options.WithReceivedMessageQueueSize(queueSize),
 				}...)
 				w = wire.UDP(link)
 				closeConn = func() { _ = cc.Close() }
@@ -167,7 +189,8 @@ func Exec(t *testing.T, sc Scenario, r *evid.Run) *evid.Failure {
 				cc, err := endpoints.TCP(link.A, []tcp.Option{
 					options.WithMessagePool(pool.New(8, 2048)), options.WithPeriodicRunner(tk.Runner()),
 					options.WithBlockwise(false, 6, time.Second), mon, options.WithCloseSocket(),
-					options.WithHandlerFunc(tcpClient.HandlerFunc(func(*responsewriter.ResponseWriter[*tcpClient.Conn], *pool.Message) {})),
+					options.WithHandlerFunc(tcpClient.HandlerFunc(func(_ *responsewriter.ResponseWriter[*tcpClient.Conn], r *pool.Message) { hold(r) })),
+					options.WithReceivedMessageQueueSize(queueSize),
 				}...)
 				if err != nil {
 					panic(err)
@@ -177,7 +200,6 @@ func Exec(t *testing.T, sc Scenario, r *evid.Run) *evid.Failure {
 				done = cc.Done()
 				failNext = func(on bool) { link.A.FailNextWrites(map[bool]int{true: 1, false: 0}[on]) }
 			}
-			_ = done
 			s = subject{
 				tick: func() { tk.Tick(); bubble.Wait(); scan() },
 				recv: func() {
@@ -217,9 +239,21 @@ func Exec(t *testing.T, sc Scenario, r *evid.Run) *evid.Failure {
 					scan()
 					return true
 				},
-				pings:    func() int { scan(); return len(pingsSeen) },
-				closed:   isClosed,
-				stop:     func() { closeConn() },
+				pings: func() int { scan(); return len(pingsSeen) },
+				// closed by the monitor's callback - or by anything else in the library (a connection
+				// that closes itself without the monitor having decided so is judged by the same rules)
+				closed: func() bool {
+					if isClosed() {
+						return true
+					}
+					select {
+					case <-done:
+						return true
+					default:
+						return false
+					}
+				},
+				stop:     func() { close(holdGate); closeConn() },
 				failNext: func(on bool) { failNext(on) },
 			}
 			bubble.Wait()
@@ -256,6 +290,9 @@ func Exec(t *testing.T, sc Scenario, r *evid.Run) *evid.Failure {
 			rec.pingsSoFar = s.pings()
 			rec.closedNow = s.closed()
 			hist = append(hist, rec)
+			if os.Getenv("VERIF_DEBUG") != "" {
+				fmt.Printf("  %v %s pings=%d closed=%v (monitor callback ran: %v)\n", rec.t, rec.kind, rec.pingsSoFar, rec.closedNow, isClosed())
+			}
 		}
 		s.stop()
 		bubble.Wait()
@@ -347,6 +384,7 @@ func gen(t *rapid.T) Scenario {
 		PeriodMs:   rapid.SampledFrom([]int{100, 1000, 4000}).Draw(t, "period"),
 		MaxRetries: rapid.IntRange(0, 4).Draw(t, "maxRetries"),
 	}
+	sc.HoldHandler = sc.Target[:3] != "raw" && rapid.IntRange(0, 3).Draw(t, "hold") == 0
 	p := sc.PeriodMs
 	gaps := []int{1, p / 3, p / 2, p - 1, p + 1, p + p/2, 2*p + 1, 5*p + 3}
 	n := rapid.IntRange(1, 16).Draw(t, "nev")
@@ -368,6 +406,27 @@ func gen(t *rapid.T) Scenario {
 		for len(sc.Events) < need {
 			sc.Events = append(sc.Events, Ev{Kind: "tick", GapMs: p / 3})
 		}
+	}
+	if sc.HoldHandler {
+		// the first request occupies the handler for good; the next message of any kind stays in the
+		// receiver (which has taken note of it), after that the receiver reads nothing any more, so
+		// nothing further counts as received: only ticks follow
+		var evs []Ev
+		held, after := false, 0
+		for _, e := range sc.Events {
+			isTick := e.Kind == "tick" || e.Kind == "failtick"
+			if held && !isTick {
+				if after >= 1 {
+					continue
+				}
+				after++
+			}
+			if e.Kind == "msg" {
+				held = true
+			}
+			evs = append(evs, e)
+		}
+		sc.Events = evs
 	}
 	return sc
 }
@@ -407,7 +466,7 @@ func TestCheck(t *testing.T) {
 		return f
 	})
 	r.Main(evid.Meta{
-		Rule:        "event lists over {message received, pong for the current or a superseded ping, housekeeping tick, housekeeping tick whose ping fails in the write} with virtual gaps around the period (1 ms, p/3, p/2, p-1, p+1, 1.5p, 2p+1, 5p+3; never exactly on it) against the bare inactivity.Monitor / KeepAlive and against datagram and stream connections configured with WithInactivityMonitor / WithKeepAlive (maxRetries 0-4) in a synctest bubble, the scripted peer answering pings on the wire; oracle: inactivity monitor closes at a tick iff that tick is later than last receipt + period; keep-alive may close only at an inactive tick and only if at least maxRetries pings were attempted (put on the wire unanswered, or failed in the write) since the last received message/pong; a received message never closes; a totally silent peer with ticks every <= period is closed within (maxRetries+2) periods. Non-trivial = traffic or a pong falls between two ticks of one period, or a pong for a superseded ping; distinct by scenario. servers: a tcp / dtls server on an in-memory listener configured once with WithInactivityMonitor or WithKeepAlive (maxRetries 1-3), 2-4 scripted peers that stay silent, answer every ping, or send a request every half period, ticks every half period; oracle per connection: a silent peer is closed (keep-alive: not before maxRetries pings went out on its own wire; inactivity: not before one period), a talking or ping-answering peer is never closed - whatever the other connections of the server do; non-trivial = peers of at least two kinds. " + udpsrv.Rule,
+		Rule:        "event lists over {message received, pong for the current or a superseded ping, housekeeping tick, housekeeping tick whose ping fails in the write} with virtual gaps around the period (1 ms, p/3, p/2, p-1, p+1, 1.5p, 2p+1, 5p+3; never exactly on it) against the bare inactivity.Monitor / KeepAlive and against datagram and stream connections configured with WithInactivityMonitor / WithKeepAlive (maxRetries 0-4) in a synctest bubble, the scripted peer answering pings on the wire (in a quarter of the connection scenarios the handler never returns and the receive queue has size 0, so that later requests stay in the receiver); oracle: inactivity monitor closes at a tick iff that tick is later than last receipt + period; keep-alive may close only at an inactive tick and only if at least maxRetries pings were attempted (put on the wire unanswered, or failed in the write) since the last received message/pong; a received message never closes; a totally silent peer with ticks every <= period is closed within (maxRetries+2) periods. Non-trivial = traffic or a pong falls between two ticks of one period, or a pong for a superseded ping; distinct by scenario. servers: a tcp / dtls server on an in-memory listener configured once with WithInactivityMonitor or WithKeepAlive (maxRetries 1-3), 2-4 scripted peers that stay silent, answer every ping, or send a request every half period, ticks every half period; oracle per connection: a silent peer is closed (keep-alive: not before maxRetries pings went out on its own wire; inactivity: not before one period), a talking or ping-answering peer is never closed - whatever the other connections of the server do; non-trivial = peers of at least two kinds. " + udpsrv.Rule,
 		Assumptions: []string{"the literal off-by-one of 'more than the configured number of pings' is not asserted: closing after maxRetries unanswered pings plus one further inactive tick is accepted (DESIGN.md 3/C18)", "a pong for a superseded ping counts as a received message"},
 		Floor:       500,
 	}, eng, serversEngine(t, r), udpsrv.Engine(r, []string{"keepalive"}, 6, 150))
